@@ -110,13 +110,17 @@ class TrackingBackend:
             raise TargetError(target.name) from exc
 
     def close(self):
-        self.ops.close()
-        # Write to a temporary file and rename it into place, so that an
-        # interrupted write never leaves a truncated, unreadable state file.
-        tmp_path = self._get_state_path() + ".tmp"
-        with open(tmp_path, "w") as state_file:
-            json.dump(self._tracked_jobs, state_file)
-        os.replace(tmp_path, self._get_state_path())
+        try:
+            self.ops.close()
+        finally:
+            # Always record the jobs that were accepted, also when the
+            # connection to the scheduler cannot be closed cleanly.
+            # Write to a temporary file and rename it into place, so that an
+            # interrupted write never leaves a truncated, unreadable state file.
+            tmp_path = self._get_state_path() + ".tmp"
+            with open(tmp_path, "w") as state_file:
+                json.dump(self._tracked_jobs, state_file)
+            os.replace(tmp_path, self._get_state_path())
 
     @property
     def target_defaults(self):
